@@ -141,6 +141,9 @@ bool hazard_eras<Traits>::guard_ptr<T, MarkedPtr>::acquire_if_equal(const concur
   } else {
     if (he != nullptr) {
       he->release_guard();
+      // alloc_hazard_era may throw - the guard must not keep a hazard era (or an object) it no longer counts in
+      he = nullptr;
+      this->ptr.reset();
     }
 
     he = local_thread_data().alloc_hazard_era(era);
